@@ -110,10 +110,10 @@ def campaign(pid, seed, runs, workers):
             return dict(status="inconclusive", stats=stats, replay=None, note="fuzz target %s (%s) does not build: %s" % (target, label, log[-600:]))
         procs = []
         for w in range(workers):
-            cdir = os.path.join(ROOT, "out", "corpus", "%s-%s-%d-%d" % (target, label, seed, w))
+            cdir = os.path.join(ROOT, "out", "corpus", "%s-%s-%s-%d-%d" % (pid, target, label, seed, w))
             shutil.rmtree(cdir, ignore_errors=True)
             seed_corpus(cdir, seed * 1000 + w)
-            adir = os.path.join(ROOT, "out", "fuzz-artifacts", "%s-%s-%d-%d" % (target, label, seed, w))
+            adir = os.path.join(ROOT, "out", "fuzz-artifacts", "%s-%s-%s-%d-%d" % (pid, target, label, seed, w))
             shutil.rmtree(adir, ignore_errors=True)
             os.makedirs(adir, exist_ok=True)
             cmd = [exe, cdir, "-runs=%d" % runs, "-seed=%d" % (seed * 100 + w + 1), "-max_len=1024", "-len_control=0", "-timeout=60",
